@@ -171,7 +171,7 @@ pub fn run_scenario(events: &[&str]) -> Obs {
 /// property monitors on what the implementation did
 pub fn monitor(o: &Obs) -> Result<(), String> {
     if o.spun { return Err(format!("C09: more than {SPIN_LIMIT} child calls inside one poll: the router spins instead of yielding")); }
-    if let Some(p) = &o.panicked { return Err(format!("C08/C11: polling the request/reply router panicked: {p}")); }
+    if let Some(p) = &o.panicked { return Err(format!("C02/C04/C08/C09/C10/C11/C16: polling the request/reply router panicked: {p}")); }
     // ---- reconstruct the exchange
     let mut taken: Vec<(usize, Frame)> = vec![];          // requests yielded by requestor streams
     let mut handed: Vec<(usize, Frame)> = vec![];         // (replier n, frame) accepted by a replier sink
@@ -202,7 +202,7 @@ pub fn monitor(o: &Obs) -> Result<(), String> {
         if let Frame::Error(_) = f { continue; } // rejection notice to a late replier, checked below
         let p = match f { Frame::Message(p) => p, other => return Err(format!("C02/C11: replier v{n} was handed a non-message frame {}", frame_tok(other))) };
         let cid = p.headers.as_ref().and_then(|h| h.get("cid")).cloned();
-        let cid: usize = match cid.and_then(|c| c.parse().ok()) { Some(c) => c, None => return Err(format!("C02: request handed to replier v{n} carries no usable origin tag: {}", frame_tok(f))) };
+        let cid: usize = match cid.and_then(|c| c.parse().ok()) { Some(c) => c, None => return Err(format!("C02/C04: request handed to replier v{n} carries no usable origin tag: {}", frame_tok(f))) };
         // find the next untaken request of that requestor
         let reqs: Vec<(&Frame, usize)> = taken.iter().zip(taken_at.iter()).filter(|((i, fr), _)| *i == cid && matches!(fr, Frame::Message(_))).map(|((_, f), at)| (f, *at)).collect();
         let cur = cursor.entry(cid).or_insert(0);
@@ -228,7 +228,7 @@ pub fn monitor(o: &Obs) -> Result<(), String> {
                 }
             }
         }
-        if !found { return Err(format!("C02: replier v{n} was handed {} which is not (the next) request of requestor {cid} with the origin tag overwritten (duplicate, reordered, forged or altered)", frame_tok(f))); }
+        if !found { return Err(format!("C02/C04: replier v{n} was handed {} which is not (the next) request of requestor {cid} with the origin tag overwritten (duplicate, reordered, forged or altered)", frame_tok(f))); }
     }
     // C02: every delivered reply is a reply the replier emitted for that requestor, tag stripped, rest intact, once
     let mut used = vec![false; replies.len()];
@@ -245,7 +245,7 @@ pub fn monitor(o: &Obs) -> Result<(), String> {
                     if cid.as_deref() == Some(&k.to_string()) && rp.message == p.message && rest == p.headers { used[j] = true; found = true; break; }
                 }
             }
-            if !found { return Err(format!("C02: requestor k{k} was handed {} which no replier emitted for it (misrouted, duplicated or altered)", frame_tok(f))); }
+            if !found { return Err(format!("C02/C04/C08: requestor k{k} was handed {} which no replier emitted for it (misrouted, duplicated or altered)", frame_tok(f))); }
         }
     }
     // C02: no reply for a connected, healthy requestor is dropped — checked when the router is at rest
@@ -258,7 +258,7 @@ pub fn monitor(o: &Obs) -> Result<(), String> {
             if let Frame::Message(rp) = r {
                 if let Some(cid) = rp.headers.as_ref().and_then(|h| h.get("cid")).and_then(|c| c.parse::<usize>().ok()) {
                     if cid < o.n_clients && !failed.get(&cid).copied().unwrap_or(false) && adopted_before(o, cid, r) {
-                        return Err(format!("C02: reply {} for connected requestor k{cid} was never delivered (dropped or overwritten)", frame_tok(r)));
+                        return Err(format!("C02/C08: reply {} for connected requestor k{cid} was never delivered (dropped or overwritten)", frame_tok(r)));
                     }
                 }
             }
@@ -547,7 +547,7 @@ pub fn run(cfg: &Cfg) {
                 let mon = match j["mon"].as_str() { Some("ok") => Ok(()), Some(w) => Err(w.to_string()), None => Err("?".into()) };
                 out.case(j["case"].as_str().unwrap(), j["line"].as_str().unwrap(), mon);
             }
-            crate::childrun::Outcome::Hang => { hangs += 1; out.stat("impl_hung"); out.case(c, "HANG", Err("C09: a poll of the request/reply router never returned (it loops without yielding and without calling any child)".into())); }
+            crate::childrun::Outcome::Hang => { hangs += 1; out.stat("impl_hung"); out.case(c, "HANG", Err("C09/C16: a poll of the request/reply router never returned (it loops without yielding and without calling any child)".into())); }
             crate::childrun::Outcome::Panic(p) => out.case(c, "HARNESS-PANIC", Err(format!("harness panicked: {p}"))),
             crate::childrun::Outcome::Abort(a) => out.case(c, "ABORT", Err(format!("process aborted: {a}"))),
         }
